@@ -17,7 +17,7 @@ pub const M: usize = 4;
 /// Maximum number of rounds (parent polls) in any harness.
 pub const RMAX: usize = 8;
 /// Maximum number of items of a scripted stream.
-pub const KMAX: usize = 4;
+pub const KMAX: usize = 8;
 
 /// Handle kinds. The waker most recently handed to a child is remembered as
 /// * `H_PARENT` + round: it *is* the harness parent waker of that round (pass-through
@@ -58,6 +58,8 @@ pub struct World {
     pub forbidden: [bool; M],
     /// C16 assertion enabled (std configuration, readiness-tracking combinators only).
     pub c16: bool,
+    /// C17: stream i has an item every time it is polled
+    pub always: [bool; M],
     /// a child returning Ready (race) / Err (try_join) / Ok (race_ok) decides the combinator:
     /// bit0 = on Ready, bit1 = on Err, bit2 = on Ok
     pub short: u8,
@@ -80,6 +82,7 @@ pub struct World {
     pub child_state: [u8; M], // 0 not created, 1 live, 2 dropped
     pub val_state: [[u8; KMAX]; M], // 0 not made, 1 live, 2 dropped
     pub made: [u8; M],        // items produced so far by child i
+    pub val_live: [u8; M],    // values of child i currently alive
     pub ready_clock: [u8; M], // clock at which child i resolved (futures)
     pub is_err: [bool; M],    // child i resolved to Err
 }
@@ -103,6 +106,7 @@ pub const WORLD0: World = World {
     hptr: [core::ptr::null(); M],
     forbidden: [false; M],
     c16: false,
+    always: [false; M],
     short: 0,
     sequential: false,
     items_this_poll: 0,
@@ -113,6 +117,7 @@ pub const WORLD0: World = World {
     child_state: [0; M],
     val_state: [[0; KMAX]; M],
     made: [0; M],
+    val_live: [0; M],
     ready_clock: [0; M],
     is_err: [false; M],
 };
@@ -248,6 +253,7 @@ impl Tok {
         let w = w();
         assert!(w.val_state[id][seq] == 0, "C02: value produced twice (harness)");
         w.val_state[id][seq] = 1;
+        w.val_live[id] += 1;
         Tok {
             id: id as u8,
             seq: seq as u8,
@@ -271,6 +277,7 @@ impl Drop for Tok {
             "C02: value dropped twice or never produced"
         );
         w.val_state[id][seq] = 2;
+        w.val_live[id] -= 1;
     }
 }
 
@@ -469,8 +476,8 @@ impl Stream for Strm {
     fn poll_next(self: Pin<&mut Self>, cx: &mut Context<'_>) -> Poll<Option<Tok>> {
         let id = self.id;
         on_poll(id, cx);
-        let d = any_u8();
         let w = w();
+        let d = if w.always[id] { 1 } else { any_u8() };
         if d == 0 {
             pending_side_effects(id, cx);
             Poll::Pending
@@ -502,14 +509,7 @@ pub fn assert_all_dropped() {
             w.child_state[i] == 0 || w.child_state[i] == 2,
             "C02: child leaked (not dropped with its combinator)"
         );
-        let mut k = 0;
-        while k < KMAX {
-            assert!(
-                w.val_state[i][k] == 0 || w.val_state[i][k] == 2,
-                "C02: value leaked"
-            );
-            k += 1;
-        }
+        assert!(w.val_live[i] == 0, "C02: value leaked");
         i += 1;
     }
 }
